@@ -14,8 +14,8 @@ TEXT = {
          "Rocq proof: length bookkeeping of serialisation op sequences + sink refinement; correspondence on constructed components"),
  "C13": ("Theorems C13_rice_optimal / C13_table_merge_exact / C13_finest_order: for every residual, warm-up and maximum parameter, the order and parameters returned by the finder model minimise the exact coded size over every partition order of the search space and every admissible parameter vector whenever some candidate is below 2^28-1 bits, and the reported bit count is then exact; proved by induction over the bottom-up merge (tables are exactly min(cost, 2^28-1) and merge = table of the concatenation). Tied by the RICE stream (find + table operations) and a brute-force optimum computed independently on the implementation's answers.",
          "Rocq proof: optimality of the bottom-up partition search by induction, saturation algebra; unit correspondence + brute-force oracle"),
- "C01": ("Theorems C01_subframe_lossless / C01_frame_lossless (+ zigzag, fixed predictors, mid/side): for every block, every estimator behaviour and every choice the encoder model can make (constant, verbatim, fixed order 0..4 under either order selection, quantised LPC; independent, left/side, right/side, mid/side), the RFC 9639 reconstruction from the emitted component fields yields exactly the input channels; the LPC branch under the named, measured hypothesis lpc_fits. PARTIAL: that the emitted bytes parse to these fields is decided on every run by executing the extracted independent decoder (Model/Flac.v) on the implementation's bytes and comparing with the input. Tied by whole-stream byte correspondence (ENC, DLV incl. multi-thread).",
-         "Rocq proof of the component-level inverse (predictors, Rice residuals, stereo) over the encoder model with oracle estimators; extracted independent decoder on emitted bytes; whole-stream correspondence"),
+ "C01": ('Theorems C01_subframe_lossless / C01_frame_lossless (for every estimator, the subframe / frame the encoder returns MEANS the block it was made from; one named hypothesis lpc_fits on the LPC branch), C01_decoder_reads_subframe (the independent RFC 9639 decoder of Model/Flac.v, started at any bit position on the bits a verified subframe serialises to, returns exactly that meaning), C01_subframe_ops_are_these_bits, C01_bytes_carry_the_bits (the byte sink exports exactly those bits), C01_subframe_bytes_decode_to_input (end to end for one subframe) and the building blocks (zigzag, fixed predictors, mid/side). PARTIAL: frame framing (header fields, CRCs, padding), STREAMINFO and that encoder subframes pass verification are decided per run: the extracted independent decoder is run on every stream the implementation emits (ENC + DLV streams, debug and release) and must return exactly the input.',
+         'Rocq proof of component-level losslessness and of the independent decoder reading the written bits; extracted decoder run on every emitted stream'),
  "C02": ("Theorems C02_block_size_codes / C02_sample_rate_codes / C02_number_roundtrip / C02_number_defined: every block length 1..=32767 and sample rate 1..=96000 (complete sweeps inside Coq over the implementation's own tables, regenerated each run) gets a non-reserved code whose RFC meaning is the value; the UTF-8-like number coding is RFC-decodable and canonical for every value below 2^36 (arithmetic proof, all seven length classes). Whole-stream clauses (sync, reserved bits, CRC-8/16, zero padding, subframe limits, frame numbering, STREAMINFO consistency, no trailing bytes) are decided per run by the extracted strict validator Flac.strict_ok on the implementation's bytes.",
          "Rocq proof: exhaustive vm_compute sweeps of finite code spaces lifted to universal statements + arithmetic proof for number coding; extracted strict validator on emitted bytes"),
  "C03": ("Theorems C03_streaminfo_true / C03_md5_split_independent: the STREAMINFO of the stream encoder model states rate, channels, width, total = samples/channels and md5 = md5(LE bytes of the byte-rounded width), for an arbitrary md5 function, and the digest input is independent of how the samples are split into blocks. Tied by ENC and DLV (integer vs byte fill, with/without length hint, 1..16 worker threads) with an oracle that recomputes count and MD5 from the raw input.",
@@ -30,8 +30,8 @@ TEXT = {
          "Rocq proof: exactness of the verifier, totality (no Panic) of the encoder model under verified configurations; boundary-grid correspondence"),
  "C19": ("Theorems C19_roundtrip, C19_empty_document_is_default, C19_omit_*_section, C19_omit_scalars, C19_partitions_default, C19_verify_agrees over a document-level model of the serde schema (container defaults, internally tagged enums, per-field default of partitions, Option<NonZeroUsize>); defaults are the implementation's Default impls dumped into Generated.v each run. Tied by the CFG stream: toml::to_string / toml::from_str against the model on random configurations, random omissions at every level and injected faults.",
          "Rocq proof over a TOML document model of the schema; correspondence with toml::to_string/from_str"),
- "C15": ("Theorem C15_number_parse_partial (the parser's own number decoder inverts the writer's UTF-8-like coding for every value below 2^36 on a byte-aligned reader). PARTIAL: the whole-tree statement parse(bytes(s)) = s is decided per run: every emitted stream is parsed by the implementation (must consume all input, verify, re-serialise to identical bytes, decode to the input, report the emitted bit count) and by the parser model (PARSE correspondence: verdict and re-serialised bytes on originals and thousands of mutants). Component-level inverse: C01.",
-         "Rocq proof of the number-coding inverse through the parser model; parser model/implementation correspondence; round-trip oracle on emitted streams"),
+ "C15": ('Theorems C15_residual, C15_subframe (the parser model, started at ANY bit position on the bits a verified residual / subframe of any size denotes, returns the identical component and stops right after them), C15_*_ops_bits, C15_bytes_carry_the_bits, C15_ideal_bits (writer side: operations = bits = exported bytes, via C11), C15_number_parse. PARTIAL: composition over frame headers, CRCs, padding and the stream container is decided per run by the PARSE stream (implementation parser vs parser model on emitted streams of every rate / block-size code class and their mutants: parse, re-serialise to identical bytes, verify, decode) and the CTOR stream.',
+         'Rocq proof of parser-after-writer identity for residuals and subframes at any bit offset; parser-model correspondence on emitted streams and mutants'),
  "C16": ("Theorems C16_crc16_detects_bursts / C16_crc8_detects_bursts / C16_crc_is_bitwise: for messages of ANY length, two messages whose difference is confined to a window of 16 (resp. 8) bits have different CRC-16 (CRC-8) remainders - linearity proved algebraically, the two register facts by complete sweeps inside Coq. The parser model has no panicking outcome; agreement of the implementation's verdict (ok/err/panic) with it, and non-acceptance of altered frames with different audio, are decided by the PARSE stream (random positions in quick, every bit position in thorough). PARTIAL for bursts that shift the CRC window.",
          "Rocq proof: CRC burst-detection theorems (algebra + exhaustive state sweeps); mutation enumeration against the parser with the parser model as reference"),
  "C05": ("Protocol model Model/Par.v (feeder, W workers, hashing thread, epilogue; fault plans) with theorems by complete schedule exploration of finite instances inside Coq (every schedule terminates, no deadlock, each frame exactly once and in order, digest input in order). PARTIAL w.r.t. all W / all schedules. Tie: (i) byte equality of multi-threaded output with single-threaded output and with the encoder model for 1..16 workers from configuration and environment override (DLV, PAR); (ii) trace validation: every event log recorded at the hook points under seeded schedule perturbation must be accepted by the extracted LTS and end in the implementation's outcome.",
@@ -40,7 +40,7 @@ TEXT = {
          "Rocq LTS model with fault plans explored exhaustively for finite instances; fault-injection runs with trace validation"),
  "C17": ("Theorems C17_streaminfo_new, C17_framebuf_with_size, C17_fill_interleaved, C17_fill_le_bytes_errors, C17_frame_entry, C17_stream_entry (both modes), C17_never_panics: each entry point's validation model accepts exactly the supported domain of the property text (arguments are unbounded naturals, so truncation wrap-arounds are covered) and has no panicking outcome. Tied by the API stream: boundary / wrap-around grid on the implementation (debug and release), verdict compared with the model and with an independent Python statement of the domain.",
          "Rocq proof: exactness of the validation model of every entry point; boundary-grid correspondence incl. hang/panic detection"),
- "C18": ("Theorems C18_total (no constructor has a panicking outcome, for all arguments), C18_*_verifies (what a constructor returns passes verification), C18_residual / C18_subframes / C18_verified_subframe_serialises (a constructed or verified residual / subframe serialises on either sink, without panic, to exactly count_bits bits - via C08 and C11). PARTIAL: parse-back identity and frame/header/metadata serialisation are validated, not proved, by the CTOR stream: every constructor on consistent and inconsistent argument grids, implementation (debug+release) vs model on verdict, verify, count_bits, bits written, bytes and parse-back, plus the property itself as an oracle on the implementation's observations.",
+ "C18": ("Theorems C18_total (no constructor has a panicking outcome, for all arguments), C18_*_verifies (what a constructor returns passes verification), C18_residual / C18_subframes / C18_verified_subframe_serialises (a constructed or verified residual / subframe serialises on either sink, without panic, to exactly count_bits bits - via C08 and C11). C18_residual_parses_back / C18_subframe_parses_back (the byte sink's export of a verified residual / subframe is read back by the parser model as the identical component). PARTIAL: frame/header/stream-info/metadata serialisation and parse-back are validated, not proved, by the CTOR stream: every constructor on consistent and inconsistent argument grids, implementation (debug+release) vs model on verdict, verify, count_bits, bits written, bytes and parse-back, plus the property itself as an oracle on the implementation's observations.",
          "Rocq proof: totality, verification and bit-exact serialisability of constructed components; boundary-grid correspondence and parse-back oracle"),
  "C20": ("Theorems C20_threading_fields_irrelevant (the configuration fields whose default depends on feature `par` do not influence the emitted bytes, for every input and estimator), C20_verify_feature_independent (acceptance of a configuration without experimental options does not depend on feature `experimental`). The encoder model has no feature parameter; that each build computes that one function is established by correspondence: the harness is built against /repo with the feature sets {}, default, decode, default+experimental; the same ENC cases run on all builds; outputs and estimator (hook) values are compared with the extracted model and with each other.",
          "Rocq proof of configuration-level feature independence; four feature builds run on the same cases against the extracted model and each other"),
